@@ -684,7 +684,9 @@ pub fn close_refused(tier: Tier, depth: usize) -> Driver {
     d.alphabet = vec![
         Act::Write(15),
         Act::Write(5),
+        Act::Write(25),
         Act::TransportPendingOnce,
+        Act::TransportPendingHold,
         state(AckSpec::All, def, SackSpec::None),
         state(AckSpec::All, WndSpec::Bytes(3), SackSpec::None),
         state(AckSpec::Plus(1), WndSpec::Bytes(3), SackSpec::None),
